@@ -15,6 +15,9 @@ def intListOf (v : Json) : Except String (List Int) := do
   a.toList.mapM (·.getInt?)
 
 def parseItem (j : Json) : Except String Item :=
+  match j.getObjVal? "foreign" with
+  | .ok _ => pure Item.foreign
+  | .error _ =>
   match j.getObjVal? "int" with
   | .ok k => do pure (Item.int (← k.getInt?))
   | .error _ => do
@@ -206,6 +209,10 @@ def randomOp (j : Json) : Except String Json := do
   pure (exceptToJson (fun (s : GStep) => geomToJson s.1) r)
 
 def handlers : List (String × Handler) := [
+  ("getitemItems", fun j => do
+    let g ← geomOfJson j
+    let items ← (← getArr j "items").toList.mapM parseItem
+    pure (exceptToJson (fun (s : GStep) => geomToJson s.1) (getitemG AxMap.size g items))),
   ("accessors", accessors),
   ("randomOp", randomOp),
   ("sliceIndices", fun j => do
